@@ -703,7 +703,7 @@ def jobs_for(prop, tier, seed):
         # DEEP_K evenly spread ones get the deeper thorough budget, the others keep the quick one
         # (the thorough tier must stay runnable: ~10 min per property on 16 cores)
         Q, T = BD('quick'), BD('thorough')
-        DEEP_K = 3
+        DEEP_K = 2
         for key in T:
             idxs = [i for i, j in enumerate(jobs) if isinstance(j.get('bound'), dict) and j['bound'] == T[key] and 'scn' in j]
             if len(idxs) <= DEEP_K:
@@ -715,8 +715,9 @@ def jobs_for(prop, tier, seed):
         # context-bounding proper: switches forced by blocking are free and ALL explored, only
         # preemptions are bounded (single-transfer scenarios; the other jobs charge forced switches).
         # Fault jobs: one preemption; cancel jobs: every non-preemptive schedule x every cancel point.
+        base = list(jobs)
         ff = []
-        for j in jobs:
+        for j in base:
             sc = j.get('scn')
             if sc is None or sc.get('mode') == 'inline' or len(sc.get('transfers', ())) != 1 or j.get('forced_cost', 1) == 0:
                 continue
@@ -725,12 +726,12 @@ def jobs_for(prop, tier, seed):
                 continue
             ff.append(dict(j, name=j['name'] + ' [forced switches free]', forced_cost=0,
                            bound=dict(b, sched=0 if b.get('inject') else 1), max_execs=200000))
-        jobs = jobs + ff[:12]
+        jobs = jobs + _spread(ff, 6)
     if tier == 'thorough':
         # fine granularity (every point is a preemption point, incl. body/stream reads) with the
         # coordinator's unlocked fields as scheduling points (reads and writes): one preemption
         extra = []
-        for j in jobs:
+        for j in base:
             sc = j.get('scn')
             if sc is None or sc.get('mode') == 'inline' or len(sc.get('transfers', ())) > 2:
                 continue
@@ -741,5 +742,12 @@ def jobs_for(prop, tier, seed):
             sc2.update(granularity='fine', fields=True, field_reads=True)
             extra.append(dict(j, name=j['name'] + ' [fine+fields]', scn=sc2,
                               bound=dict(b, sched=1), max_execs=400000))
-        jobs = jobs + extra[:16]
+        jobs = jobs + _spread(extra, 8)
     return jobs
+
+
+def _spread(items, k):
+    """k items evenly spread over the list (deterministic)"""
+    if len(items) <= k:
+        return list(items)
+    return [items[(i * len(items)) // k] for i in range(k)]
